@@ -20,6 +20,7 @@ extern "C" {
 #include "lpc/mapping.h"
 }
 #include <cmath>
+#include <initializer_list>
 
 void fuzz_driver_startup ();
 
@@ -60,10 +61,12 @@ static bool same (svalue_t *a, svalue_t *b, int depth) {
   case T_MAPPING: {
     mapping_t *m = a->u.map, *n = b->u.map;
     // float keys are outside what is compared: two keys that differ behind the sixth digit are saved as the same text ("floats to
-    // the printed precision" is what the property grants), so the number of pairs may shrink
-    for (int j = 0; j <= m->table_size; j++)
-      for (mapping_node_t *e = m->table[j]; e; e = e->next)
-        if (e->values[0].type == T_REAL || (e->values[0].type == T_STRING && strchr (e->values[0].u.string, '\r'))) return true;   // (a key with a CR: KF-C16-1 can merge it with another key)
+    // the printed precision" is what the property grants), so the number of pairs may shrink. The same for a key with a CR in it
+    // (KF-C16-1 turns it into LF, which can merge it with another key) - on either side.
+    for (mapping_t *mm : { m, n })
+      for (int j = 0; j <= mm->table_size; j++)
+        for (mapping_node_t *e = mm->table[j]; e; e = e->next)
+          if (e->values[0].type == T_REAL || (e->values[0].type == T_STRING && strpbrk (e->values[0].u.string, "\r\n"))) return true;
     if (m->count != n->count) return false;
     for (int j = 0; j <= m->table_size; j++)
       for (mapping_node_t *e = m->table[j]; e; e = e->next) {
